@@ -32,3 +32,4 @@ func vPickString(idx int, options ...string) string { return "" }
 func vAllBytesIn(s string, lo, hi int, set string) bool { return false }
 func vNoBytesIn(s string, lo, hi int, set string) bool  { return false }
 func vHasPrefixS(s, p string) bool                       { return false }
+func vSetAddrMax(n int)                                  {}
